@@ -29,6 +29,10 @@ from typing import Any, Callable
 
 import z3
 
+# deterministic solver behaviour: same queries -> same models, run after run
+z3.set_param('smt.random_seed', 0)
+z3.set_param('sat.random_seed', 0)
+
 _current: contextvars.ContextVar['Engine'] = contextvars.ContextVar('pyvc_engine')
 
 
@@ -78,6 +82,8 @@ class Engine:
         self.draws: list[tuple[str, Any]] = []     # (name, z3 const) in draw order
         self.names: dict[str, int] = {}
         self.shared = shared          # persists across the paths of one harness run (loop-head de-duplication)
+        self.want_sample = False      # capture the SMT-LIB text of the first discharged obligation (evidence sample)
+        self.sample = None
         self.dead = False
         self.no_crosscheck = ''       # set when the path used an uninterpreted abstraction (its model is not an execution)
         self.backedge = False
@@ -209,6 +215,10 @@ class Engine:
             backend = 'z3-' + z3.get_version_string()
             if r == z3.unsat:
                 st = 'proved'
+                if self.want_sample and not canary:
+                    self.want_sample = False
+                    self.sample = dict(obligation=name, path=self.path_no, verdict='unsat (path-condition AND NOT goal)',
+                                       smt2=self.solver.to_smt2()[:3000])
             elif r == z3.sat:
                 st = 'refuted'
                 model = self._extract_model(self.solver.model())
